@@ -592,6 +592,7 @@ class C02(Prop):
         pending_raise = None   # (exn, now) raised by a step, to be seen as the result of the plan item
         item = None
         done, done_before = set(), set()     # events processed so far / when the current plan item began
+        escaped = set()        # events whose callback loop was left by an exception of a callback (DESIGN 4 (ii): no claim)
 
         def add(m):
             msgs.append(m)
@@ -612,7 +613,7 @@ class C02(Prop):
                     if res[0] != ["raise", exn] or res[1] != t:
                         add(f"failure-not-propagated: step raised {exn} at {t}, the plan item ended with {res[0]} at {res[1]}")
                 if x[2] is not None and res is not None and x[3] is not None and x[2] not in misused \
-                        and cls_of.get(x[2]) not in COND_CLASSES:
+                        and x[2] not in escaped and cls_of.get(x[2]) not in COND_CLASSES:
                     if x[2] in done_before:
                         # already processed when run() was called: run returns until.value (the exception object if it failed)
                         want = ["stop", x[3][1] if x[3][0] == "ok" else ["exn", x[3][1][0], x[3][1][1]]]
@@ -673,6 +674,10 @@ class C02(Prop):
                         add(f"waiter-lost-at-until-stop: run(until=event {sid}) stopped at {now}; processes {left} registered on "
                             f"the event after run() was entered are never resumed")
                 elif raised[0] == "raise":
+                    if oc is None or oc[0] == "ok" or raised[1] != oc[1]:
+                        # a callback (a waiter's invalid yield, an interrupt of a process whose target is being processed ...)
+                        # let an exception escape from the loop: it also supersedes the remembered stop of run(until=event)
+                        escaped.add(sid)
                     if oc is not None and oc[0] == "fail" and all_done:
                         if not defused and raised[1] != oc[1]:
                             add(f"failure-wrong-exception: event {sid} failed with {oc[1]} (not defused), step() raised {raised[1]}")
